@@ -350,13 +350,11 @@ class _:
         return o.self.rows.len > 0
 
     @staticmethod
-    def ensures(o, n, res):
-        s, f = o.self, o.frag
+    def pure(o, s, f):
         first, last = s.rows[0].z == f.z, s.rows[-1].z == f.z
         # the start coordinate trim_fragment(frag) gives when the whole overhang on that side is cut
-        want = z3.If(z3.And(f.strand == 1, first), f.start + (s.bait.start - s.start),
+        return z3.If(z3.And(f.strand == 1, first), f.start + (s.bait.start - s.start),
                      z3.If(z3.And(f.strand != 1, last), f.start + (s.end - s.bait.end), f.start))
-        return res == want
 
 
 @contract(f"{M}.trim_fragment", properties=("C18", "C02", "C01"))
@@ -366,7 +364,9 @@ class _:
 
     @staticmethod
     def requires(o):
-        return [("wf", wf(o.self)), ("nonempty", o.self.rows.len > 0)]
+        # the interval arithmetic of the cut needs only a non-empty result; the representation invariant is
+        # preserved if it held (clauses wf.*)
+        return [("nonempty", o.self.rows.len > 0)]
 
     @staticmethod
     def modifies(o):
@@ -414,8 +414,8 @@ class _:
                             forall(lambda k: z3.Implies(z3.And(0 <= k, k < rows0.len, k != pos), rows1[k].z == rows0[k].z)))),
             ("cut-tag", z3.Contains(res.tags, z3.Unit(z3.StringVal("Cut")))),
             ("new-object", z3.And(res.oid >= o.ralloc, res.oid < n.ralloc)),
-            *wf_parts(n.self, src=o.self.g_src),
-            ("ghost", z3.And(ghost_same(o, n, ["g_src", "g_lo", "g_hi"]), source_untouched(o, n),
+            *[(lbl, z3.Implies(wf(o.self), f)) for lbl, f in wf_parts(n.self, src=o.self.g_src)],
+            ("ghost", z3.And(ghost_same(o, n, ["g_src", "g_lo", "g_hi"]), z3.Implies(wf(o.self), source_untouched(o, n)),
                              n.self.g_ts == s.g_ts + so, n.self.g_te == s.g_te + eo)),
             ("bait", n.self.bait.z == s.bait.z),
         ]
